@@ -294,7 +294,16 @@ func shrinkWLCfg(w WLCfg) []WLCfg {
 	return out
 }
 
-var shippedLists = map[string][]string{"words": spg.AgileWords, "syllables": spg.AgileSyllables}
+var shippedLists = map[string][]string{"words": spg.AgileWords, "syllables": spg.AgileSyllables, "huge": hugeList()}
+
+// hugeList: 70 000 distinct lower-case words (more than 2^16).
+func hugeList() []string {
+	out := make([]string, 0, 70000)
+	for i := 0; i < 70000; i++ {
+		out = append(out, fmt.Sprintf("w%dx", i))
+	}
+	return out
+}
 var shippedBuilt = map[string]*spg.WordList{}
 
 func runC05(c *Ctx, si interface{}) {
